@@ -34,8 +34,8 @@ CASE_CPU_LIMIT = 60
 RULE = ("six case kinds. shared (10%): a collection whose parameters are shared between distributions (IOV layout: the same variance symbol in 2-3 normal distributions, the same symbolic 2x2/3x3 block repeated per occasion, a variance that is also a diagonal element of a block) next to ordinary IIV/RUV distributions and an unused parameter, in seeded order, with exact sd/correlation values (mild, strong or any): parameters_sdcorr (values from the definition, inverse round trip, frame, a second seeded order), validate_parameters / nearest_valid_parameters, the UCP round trip of a model with them, and 3-7 operations of the algebra on the same collection. model (16%): a small Model (2-4 etas with exp effects on CL/V/KA/Q, one epsilon, a FOCE step; no dataset) built with Model.create, then 2-5 steps: raw mode = replace(random_variables=partition of the etas into blocks over pre-existing covariance parameters) / replace(parameters=new covariance values) / both / neither, with covariances corr*sd_i*sd_j of style mild, strong (+-15/16: pairwise fine, jointly indefinite), over (|corr| > 1) or any, so values are valid for one block structure and invalid for another; modeling mode = create_joint_distribution (with or without seeded individual estimates) / split_joint_distribution / remove_iiv / add_iiv / set every covariance of the present blocks to a given correlation. The remaining 74% as follows. ops (3/5): a collection of 1-6 random variables in normal / joint-normal blocks of size 1-4 "
         "(entries: symbols, integers, dyadic rationals, zero covariances; levels IIV/IOV/RUV) and 3-7 operations from "
         "unjoin / join (fill 0, numeric or symbolic fill, name template; rarely an empty, repeated or unknown name) / "
-        "index by collection / subs (rename, swap, numeric) / + distribution (rarely a duplicate name or unknown level) / "
-        "+ collection / create / JointNormalDistribution[sub-collection of a joint block], each followed by the queries "
+        "index by collection / subs (rename, swap, numeric) [every name list in the order a caller may write it: shuffled, with a repeated name in ~20%, some names as Expr symbols] / + distribution (rarely a duplicate name or unknown level) / "
+        "+ collection / create / JointNormalDistribution[sub-collection of a joint block, names shuffled, repeated in 25%, list or tuple, rarely an Expr], each followed by the queries "
         "names, covariance_matrix, get_covariance, variance_parameters. psd (1/5): symmetric dyadic-rational matrix, "
         "n=1-5, positive definite / singular PSD / indefinite / negative / large condition number, through "
         "nearest_positive_semidefinite, validate_parameters, nearest_valid_parameters, "
@@ -68,7 +68,7 @@ LEVELS = ["IIV", "IOV", "RUV"]
 
 
 def budget(tier):
-    return int(os.environ.get("VERIF_BUDGET", 0)) or {"quick": 2500, "thorough": 30000}[tier]
+    return int(os.environ.get("VERIF_BUDGET", 0)) or {"quick": 3000, "thorough": 60000}[tier]
 
 
 # ---------------------------------------------------------------- generation
@@ -132,6 +132,15 @@ def gen_dists(rng: random.Random, prefix="e", maxn=6, shared=False):
     return dists
 
 
+def mixnames(rng: random.Random, lst, p_expr=0.15, p_rep=0.2):
+    """a selection as a caller may write it: any order, a repeated name, some names as Expr symbols ("$name")"""
+    lst = list(lst)
+    if lst and rng.random() < p_rep:
+        lst.append(rng.choice(lst))
+    rng.shuffle(lst)
+    return [("$" + x if rng.random() < p_expr else x) for x in lst]
+
+
 def gen_ops(rng: random.Random, dists):
     names = [n for d in dists for n in d["names"]]
     fresh = itertools.count(1)
@@ -143,12 +152,10 @@ def gen_ops(rng: random.Random, dists):
         pool = names + (["nope"] if rng.random() < 0.08 else [])
         if r < 0.22:
             k = rng.randint(1, min(3, len(pool)))
-            ops.append(["unjoin", rng.sample(pool, k)])
+            ops.append(["unjoin", mixnames(rng, rng.sample(pool, k))])
         elif r < 0.50:
             k = rng.randint(0 if rng.random() < 0.05 else 1, min(4, len(pool)))
-            inds = rng.sample(pool, k)
-            if rng.random() < 0.1 and inds:
-                inds.append(inds[0])
+            inds = mixnames(rng, rng.sample(pool, k), p_expr=0.03, p_rep=0.15)
             f = rng.random()
             if f < 0.35:
                 fill = ["fill", "0"]
@@ -157,12 +164,12 @@ def gen_ops(rng: random.Random, dists):
             elif f < 0.65:
                 fill = ["fill", "FILL"]
             else:
-                fill = ["template", "IIV_", "_IIV_", rng.choice(["", "_X"]), [f"p{i}" for i in range(len(set(inds)))]]
+                fill = ["template", "IIV_", "_IIV_", rng.choice(["", "_X"]), [f"p{i}" for i in range(len({x.lstrip("$") for x in inds}))]]
             ops.append(["join", inds, fill])
         elif r < 0.64:
             k = rng.randint(0 if rng.random() < 0.1 else 1, len(pool))
             inds = rng.sample(pool, k)
-            ops.append(["getitem", inds])
+            ops.append(["getitem", mixnames(rng, inds)])
             names = [n for n in names if n in inds]
         elif r < 0.78:
             pairs = []
@@ -203,7 +210,7 @@ def gen_ops(rng: random.Random, dists):
             # selected by the mask (plus, rarely, a name it does not have)
             mask = [rng.random() < 0.55 for _ in range(6)]
             extra = [rng.choice(pool)] if rng.random() < 0.1 else []
-            ops.append(["distget", rng.randrange(6), mask, extra])
+            ops.append(["distget", rng.randrange(6), mask, extra, rng.randrange(1 << 20), rng.random() < 0.25, rng.random() < 0.08])
     return ops
 
 
@@ -443,6 +450,11 @@ def corpus_cases():
         {"kind": "ops", "dists": [_blk3(), _nrm("rd", "D")],
          "ops": [["join", ["rc", "rd"], ["template", "IIV_", "_IIV_", "", ["p0", "p1"]]]], "seed": 3},
         {"kind": "ops", "dists": [_nrm("ra", "A"), _nrm("rb", "0")], "ops": [["join", ["ra", "rb"], ["fill", "1/8"]]], "seed": 4},
+        # selections listed in another order than the block's, with a repeat, as symbols
+        {"kind": "ops", "dists": [_blk3(), _nrm("rd", "D")],
+         "ops": [["distget", 0, ["rc", "ra"]], ["distget", 1, ["rc", "rb", "rc"]], ["getitem", ["rd", "$rc", "ra", "rd"]],
+                 ["unjoin", ["$ra"]]], "seed": 18},
+        {"kind": "ops", "dists": [_blk3(), _nrm("rd", "D")], "ops": [["join", ["$rc", "rd"], ["fill", "0"]]], "seed": 19},
         {"kind": "ops", "dists": [_nrm("ra", "A")], "ops": [["join", [], ["fill", "0"]]], "seed": 5},
         {"kind": "ops", "dists": [_nrm("ra", "A"), _nrm("rb", "B")],
          "ops": [["join", ["ra", "rb"], ["fill", "0"]], ["subs", [["A", "B"], ["B", "A"]]], ["add", _nrm("ra", "3")]], "seed": 6},
@@ -548,10 +560,24 @@ def to_expr(s: str):
     return Expr.symbol(s)
 
 
+_CREATED = {}   # (mean, matrix) -> (Matrix mean, Matrix variance) of a distribution made by the real `create`
+
+
 def build_dist(d):
+    """The first distribution with a given mean vector and matrix goes through JointNormalDistribution.create (whose
+    symbolic PSD test dominates the run time); repetitions of the same matrix (other names / level: the blocks of
+    later occasions, the same collection built twice) reuse its Matrix objects through the constructor."""
     if d["joint"]:
-        return JointNormalDistribution.create(d["names"], d["level"], [to_expr(m) for m in d["mean"]],
+        key = (tuple(d["mean"]), tuple(tuple(r) for r in d["var"]))
+        hit = _CREATED.get(key)
+        if hit is not None:
+            return JointNormalDistribution(tuple(d["names"]), d["level"].upper(), hit[0], hit[1])
+        dist = JointNormalDistribution.create(d["names"], d["level"], [to_expr(m) for m in d["mean"]],
                                               [[to_expr(x) for x in row] for row in d["var"]])
+        if len(_CREATED) > 2000:
+            _CREATED.clear()
+        _CREATED[key] = (dist.mean, dist.variance)
+        return dist
     return NormalDistribution.create(d["names"][0], d["level"], to_expr(d["mean"][0]), to_expr(d["var"][0][0]))
 
 
@@ -673,6 +699,7 @@ def run_ops(case, drv):
     tags.append(f"nvars={len(rvs.names)}")
     tags.append(f"nblocks={len(rvs)}")
     changed_structure = False
+    qrng = random.Random(case["seed"])
     check_matrix(rvs, mon, "initial")
     for op in case["ops"]:
         kind = op[0]
@@ -681,6 +708,20 @@ def run_ops(case, drv):
             break
         tags.append(f"op:{kind}")
         old = rvs
+        real_inds = wire_inds = None
+        has_expr = False
+        if kind in ("unjoin", "join", "getitem"):
+            raw = list(op[1])
+            has_expr = any(x.startswith("$") for x in raw)
+            real_inds = [Expr.symbol(x[1:]) if x.startswith("$") else x for x in raw]
+            plain = [x[1:] if x.startswith("$") else x for x in raw]
+            # unjoin / __getitem__ take a symbol for its name; join compares the items with the names (strings)
+            wire_inds = ["sym:" + x[1:] if (x.startswith("$") and kind == "join") else (x[1:] if x.startswith("$") else x) for x in raw]
+            op = [kind, plain] + list(op[2:])
+            if has_expr:
+                tags.append(f"{kind}:expr-symbols")
+            if len(set(plain)) != len(plain):
+                tags.append(f"{kind}:repeated-name")
         w_old = wire_rvs(old)
         oldnames = old.names
         unique = len(set(oldnames)) == len(oldnames)
@@ -692,22 +733,22 @@ def run_ops(case, drv):
         req = None
         try:
             if kind == "unjoin":
-                req = ["unjoin", w_old, op[1]]
-                new = old.unjoin(op[1])
+                req = ["unjoin", w_old, wire_inds]
+                new = old.unjoin(real_inds)
             elif kind == "join":
                 fill = op[2]
                 if fill[0] == "fill":
-                    req = ["join", w_old, op[1], ["fill", entry_to_wire(fill[1])]]
+                    req = ["join", w_old, wire_inds, ["fill", entry_to_wire(fill[1])]]
                     fv = to_expr(fill[1])
                     fv = 0 if fv == 0 else fv
-                    new, extra = old.join(op[1], fill=fv)
+                    new, extra = old.join(real_inds, fill=fv)
                 else:
-                    req = ["join", w_old, op[1], ["template", fill[1], fill[2], fill[3], fill[4]]]
-                    new, extra = old.join(op[1], name_template=fill[1] + "{}" + fill[2] + "{}" + fill[3],
+                    req = ["join", w_old, wire_inds, ["template", fill[1], fill[2], fill[3], fill[4]]]
+                    new, extra = old.join(real_inds, name_template=fill[1] + "{}" + fill[2] + "{}" + fill[3],
                                           param_names=list(fill[4]))
             elif kind == "getitem":
-                req = ["getitem", w_old, op[1]]
-                new = old[list(op[1])]
+                req = ["getitem", w_old, wire_inds]
+                new = old[list(real_inds)]
             elif kind == "subs":
                 req = ["subs", w_old, [[a, entry_to_wire(b)] for a, b in op[1]]]
                 new = old.subs({Expr.symbol(a): to_expr(b) for a, b in op[1]})
@@ -729,9 +770,28 @@ def run_ops(case, drv):
                 if not joint:
                     continue
                 d = joint[op[1] % len(joint)]
-                op = ["distget", op[1], [n for n, m_ in zip(d.names, op[2]) if m_] + list(op[3])]
-                req = ["distget", wire_dist(d), op[2]]
-                res = d[list(op[2])]
+                as_expr = False
+                if op[2] and isinstance(op[2][0], str):      # explicit selection (corpus)
+                    sel = list(op[2])
+                    op = ["distget", op[1], sel, []]
+                else:
+                    sel = [n for n, m_ in zip(d.names, op[2]) if m_] + list(op[3])
+                if len(op) > 4:      # the caller's order: shuffled, possibly a repeated name, possibly one Expr symbol
+                    r2 = random.Random(op[4])
+                    if op[5] and sel:
+                        sel.append(r2.choice(sel))
+                    r2.shuffle(sel)
+                    as_expr = bool(op[6]) and bool(sel)
+                op = ["distget", op[1], sel]
+                real_sel = list(sel)
+                wire_sel = list(sel)
+                if as_expr:          # JointNormalDistribution[...] takes names (and ints) only: an Expr is refused
+                    real_sel[0] = Expr.symbol(sel[0])
+                    wire_sel[0] = "sym:" + sel[0]
+                if [n for n in d.names if n in sel] != [n for n in sel if n in d.names]:
+                    tags.append("distget:not-in-block-order")
+                req = ["distget", wire_dist(d), wire_sel]
+                res = d[real_sel if r_tuple(op[1]) else tuple(real_sel)]
                 code = ["ok", wire_dist(res)]
                 # monitor: restriction of the block
                 if list(res.names) != [n for n in d.names if n in op[2]]:
@@ -740,7 +800,7 @@ def run_ops(case, drv):
                     for b in res.names:
                         if dist_cov(res, a, b) != dist_cov(d, a, b):
                             mon.append(M("dist-getitem-cov", f"{d.names}[{op[2]}]: cov({a},{b}) changed"))
-        except (KeyError, ValueError, IndexError, TypeError, AttributeError) as e:
+        except Exception as e:      # whatever the code under test raises is an observation, never a harness error
             code = exc_class(e)
             tags.append(f"{kind}-raises-{type(e).__name__}")
             # documented refusals: join of a non-existing variable (KeyError), duplicate names (ValueError),
@@ -751,7 +811,10 @@ def run_ops(case, drv):
                 or (kind == "add" and isinstance(e, ValueError) and op[1]["level"] not in LEVELS)
                 or (kind == "distget" and isinstance(e, KeyError))
             )
-            if not refusal and not unique:
+            if (kind == "join" and has_expr and isinstance(e, KeyError) and all(i in oldnames for i in op[1])):
+                mon.append(M("join-expr-symbol-keyerror", f"join({real_inds}) raised KeyError although every variable exists: "
+                             f"a symbol is compared with the names (strings)"))
+            elif not refusal and not unique:
                 tags.append("error-in-state-with-duplicate-names")
             elif not refusal:
                 if kind == "join" and isinstance(e, IndexError) and len(op[1]) == 0:
@@ -783,7 +846,7 @@ def run_ops(case, drv):
         # ---- monitors (the property statement on the real objects)
         if not unique:
             tags.append("state-with-duplicate-names")
-            check_queries(new, drv, k, mon, tags, label)
+            check_queries(new, drv, k, mon, tags, label, qrng)
             continue
         if kind in ("unjoin", "join", "create"):
             if sorted(newnames) != sorted(oldnames):
@@ -886,15 +949,68 @@ def run_ops(case, drv):
         else:
             mon.append(M("names-not-unique", f"{label}: names {newnames}"))
         check_matrix(new, mon, label)
-        check_queries(new, drv, k, mon, tags, label)
+        check_queries(new, drv, k, mon, tags, label, qrng)
+    check_sample_inputs(rvs, qrng, mon, tags)
     return {"k": k, "mon": _dedupe(mon), "tags": tags, "nontrivial": changed_structure}
+
+
+def check_sample_inputs(rvs, rng, mon, tags):
+    """what RandomVariables.sample feeds to the sampler: filter_distributions (restriction of every block to the
+    symbols of the expression) and subs_distributions (the numeric covariance of each restricted block)"""
+    from pharmpy.model.random_variables import filter_distributions, subs_distributions
+    names = rvs.names
+    if not names or len(set(names)) != len(names):
+        return
+    sub = set(rng.sample(names, rng.randint(1, len(names))))
+    tags.append("sample-inputs")
+    try:
+        ys = list(filter_distributions(rvs, {sympy.Symbol(n) for n in sub}))
+    except Exception as e:
+        mon.append(M("internal-error", f"filter_distributions({sorted(sub)}) raised {type(e).__name__}: {e}"))
+        return
+    t = cov_table(rvs)
+    want = [tuple(n for n in d.names if n in sub) for d in rvs if any(n in sub for n in d.names)]
+    if [tuple(y.names) for y in ys] != want:
+        mon.append(M("filter-distributions-names", f"filter_distributions({sorted(sub)}) on {blocks_of(rvs)} yields "
+                     f"{[tuple(y.names) for y in ys]}, expected {want}"))
+        return
+    vals = {}
+    for y in ys:
+        for a in y.names:
+            for b in y.names:
+                if dist_cov(y, a, b) != t[(a, b)]:
+                    mon.append(M("filter-distributions-cov", f"filter_distributions({sorted(sub)}): cov({a},{b})="
+                                 f"{dist_cov(y, a, b)} in the restricted block, {t[(a, b)]} in the collection"))
+                    return
+                for sym_ in t[(a, b)].free_symbols:
+                    vals.setdefault(sym_, rng.randint(1, 64) / 16)
+    for y in ys:
+        if isinstance(y, JointNormalDistribution) and all(sympy.sympify(m_) == 0 for m_ in y.mean):
+            try:
+                nd = y.evalf(vals)
+            except Exception as e:
+                mon.append(M("internal-error", f"evalf of the restricted block {y.names} raised {type(e).__name__}: {e}"))
+                return
+            sig = np.array(nd._sigma, dtype=float)
+            for i, a in enumerate(y.names):
+                for j, b in enumerate(y.names):
+                    w_ = float(t[(a, b)].xreplace(vals))
+                    if not close(float(sig[i, j]), w_, rel=1e-12, abs_=1e-15):
+                        mon.append(M("sample-inputs-cov", f"numeric covariance of ({a},{b}) handed to the sampler is {sig[i, j]}, "
+                                     f"the collection has {w_}"))
+                        return
+
+
+def r_tuple(k):
+    """list or tuple as the collection type, decided by the case"""
+    return k % 2 == 0
 
 
 def wire_name(x):
     return x if isinstance(x, str) else (x[1] if x[2] == "1" else f"{x[1]}/{x[2]}")
 
 
-def check_queries(rvs, drv, k, mon, tags, label):
+def check_queries(rvs, drv, k, mon, tags, label, rng=None):
     """names / covariance_matrix / get_covariance / variance_parameters: K only"""
     if drv is None:
         return
@@ -911,9 +1027,14 @@ def check_queries(rvs, drv, k, mon, tags, label):
     probes = []
     if names:
         probes = [(names[0], names[-1]), (names[-1], names[len(names) // 2]), (names[0], "nope")]
+    if rng is not None and names:
+        for _ in range(2):
+            probes.append((rng.choice(names), rng.choice(names)))
     for a, b in probes:
         try:
-            code = ["ok", _norm(wire_entry(rvs.get_covariance(a, b)))]
+            ra = Expr.symbol(a) if (rng is not None and rng.random() < 0.3) else a
+            rb = Expr.symbol(b) if (rng is not None and rng.random() < 0.3) else b
+            code = ["ok", _norm(wire_entry(rvs.get_covariance(ra, rb)))]
         except Exception as e:
             code = exc_class(e)
         m = drv.ask(["getcov", w, a, b])
@@ -1348,8 +1469,12 @@ def _model_rvs(part, k):
             i = grp[0]
             dists.append(NormalDistribution.create(f"ETA{i}", "IIV", 0, Expr.symbol(f"O_{i}")))
         else:
-            var = [[Expr.symbol(f"O_{a}") if a == b else Expr.symbol(f"C_{max(a, b)}_{min(a, b)}") for b in grp] for a in grp]
-            dists.append(JointNormalDistribution.create([f"ETA{i}" for i in grp], "IIV", [0] * len(grp), var))
+            hit = _CREATED.get(("model", tuple(grp)))
+            if hit is None:     # the real `create` once per block shape (its symbolic PSD test dominates the run time)
+                var = [[Expr.symbol(f"O_{a}") if a == b else Expr.symbol(f"C_{max(a, b)}_{min(a, b)}") for b in grp] for a in grp]
+                hit = JointNormalDistribution.create([f"ETA{i}" for i in grp], "IIV", [0] * len(grp), var)
+                _CREATED[("model", tuple(grp))] = hit
+            dists.append(hit)
     dists.append(NormalDistribution.create("EPS1", "RUV", 0, Expr.symbol("SI")))
     return RandomVariables.create(dists)
 
@@ -1728,6 +1853,23 @@ def run_shared(case, drv):
 
 
 def run_case(case, drv):
+    """An exception that escapes a run_* function is a harness error only if it was raised by harness code; if the
+    innermost frame is in the code under test (pharmpy or its dependencies) it is reported as a monitor failure."""
+    import traceback
+    try:
+        return _run_case(case, drv)
+    except Exception as e:
+        frames = traceback.extract_tb(e.__traceback__)
+        inner = frames[-1].filename if frames else ""
+        if "/harness/" in inner:
+            raise
+        where = next((f"{f.filename.split('/src/')[-1]}:{f.lineno} in {f.name}" for f in reversed(frames) if "/pharmpy/" in f.filename), inner)
+        call = next((f.line for f in reversed(frames) if "/harness/" in f.filename), "")
+        return {"k": [], "mon": [M("internal-error", f"{type(e).__name__}: {e} raised at {where} while the harness evaluated `{call}`")],
+                "tags": [f"code-raised-{type(e).__name__}"], "nontrivial": False}
+
+
+def _run_case(case, drv):
     kind = case["kind"]
     if kind == "shared":
         return run_shared(case, drv)
